@@ -4,32 +4,48 @@ import (
 	"fmt"
 	"go.uber.org/zap"
 	"strings"
+	"sync"
 )
 
 type MultiSchemesCRLLoader struct {
 	Loaders              []CRLLoader
 	Logger               *zap.Logger
 	lastSuccessfulLoader CRLLoader
+	//the loader of a crl can be used by a handshake and by the update of the crls at the same time
+	lastSuccessfulLoaderLock sync.Mutex
+}
+
+func (f *MultiSchemesCRLLoader) getLastSuccessfulLoader() CRLLoader {
+	f.lastSuccessfulLoaderLock.Lock()
+	defer f.lastSuccessfulLoaderLock.Unlock()
+	return f.lastSuccessfulLoader
+}
+
+func (f *MultiSchemesCRLLoader) setLastSuccessfulLoader(loader CRLLoader) {
+	f.lastSuccessfulLoaderLock.Lock()
+	defer f.lastSuccessfulLoaderLock.Unlock()
+	f.lastSuccessfulLoader = loader
 }
 
 func (f *MultiSchemesCRLLoader) LoadCRL(filePath string) error {
-	if f.lastSuccessfulLoader != nil {
-		err := f.lastSuccessfulLoader.LoadCRL(filePath)
+	lastSuccessfulLoader := f.getLastSuccessfulLoader()
+	if lastSuccessfulLoader != nil {
+		err := lastSuccessfulLoader.LoadCRL(filePath)
 		if err == nil {
 			return nil
 		} else {
-			f.Logger.Warn("failed to load CRL from loader", zap.String("loader", f.lastSuccessfulLoader.GetDescription()))
+			f.Logger.Warn("failed to load CRL from loader", zap.String("loader", lastSuccessfulLoader.GetDescription()))
 		}
 	}
 	for _, loader := range f.Loaders {
-		if loader == f.lastSuccessfulLoader {
+		if loader == lastSuccessfulLoader {
 			continue
 		}
 		err := loader.LoadCRL(filePath)
 		if err != nil {
 			f.Logger.Warn("failed to load CRL from loader", zap.String("loader", loader.GetDescription()))
 		} else {
-			f.lastSuccessfulLoader = loader
+			f.setLastSuccessfulLoader(loader)
 			return nil
 		}
 	}
